@@ -225,6 +225,42 @@ def c01eq(a, b):
     return _eq(a, b)
 
 
+def xinclude_text(ctx):
+    """Splitting a document with XInclude, parse="text": the included file is character data in ITS OWN encoding
+    (the encoding attribute); the object is the one the inline document gives."""
+    import shutil
+
+    from ..poly_models import AnyHolder
+
+    texts = ["caf\u00e9", "plain", "\u00fc\u00df \u00a9 x", "a < b & c"]
+    # (name in the document, Python codec); no byte order mark: what a processor does with one inside text is its own affair
+    encodings = [("utf-8", "utf-8"), ("ISO-8859-1", "latin-1"), ("UTF-16LE", "utf-16-le"), ("windows-1252", "cp1252")]
+    for text in texts:
+        inline = "<AnyHolder><last>" + text.replace("&", "&amp;").replace("<", "&lt;") + "</last></AnyHolder>"
+        for enc, codec in encodings:
+            d = tempfile.mkdtemp(prefix="xv-xit-")
+            try:
+                with open(os.path.join(d, "part.txt"), "wb") as f:
+                    f.write(text.encode(codec))
+                main = os.path.join(d, "main.xml")
+                with open(main, "w", encoding="utf-8") as f:
+                    f.write(f'<AnyHolder xmlns:xi="http://www.w3.org/2001/XInclude"><last><xi:include href="part.txt" parse="text" encoding="{enc}"/></last></AnyHolder>')
+                for h in ("native", "lxml"):
+                    ctx.case(("xinclude-text", text, enc, h))
+                    xctx = XmlContext()
+                    st, base, _w = hb.parse(inline, h, xctx, AnyHolder, "str", ParserConfig())
+                    p = XmlParser(context=xctx, handler=hb.HANDLERS[h], config=ParserConfig(process_xinclude=True, base_url=main))
+                    try:
+                        obj = p.parse(main, AnyHolder)
+                    except Exception as ex:  # noqa: BLE001
+                        obj = ex
+                    if st != "ok" or obj != base:
+                        ctx.violation(f"XInclude parse=text encoding={enc} ({h}) parses to {repr(obj)[:200]}; the inline document parses to {base!r}",
+                                      {"handler": h, "encoding": enc, "text": text})
+            finally:
+                shutil.rmtree(d, ignore_errors=True)
+
+
 def has_qualified_qname(doc) -> bool:
     """Selector part of F14: the document carries a namespace-qualified QName value or xsi:type."""
     for _n, atoms in doc["attrs"]:
@@ -260,6 +296,7 @@ def run(ctx):
     ctx.extra["documents_respelled"] = len(cases)
     anytype_spellings(ctx)
     padded_values(ctx)
+    xinclude_text(ctx)
 
 
 def replay(ctx, doc):
